@@ -182,7 +182,9 @@ func encodePos(encPtr reflect.Value, val syntax.Pos) {
 	// TODO: perhaps we should encode recovered positions, as that is still useful information.
 	// Note that decoding them back requires a way to build a recovered position,
 	// as [syntax.NewPos] clamps offsets and so can never produce one.
-	if !val.IsValid() {
+	// Note that [syntax.Pos.IsValid] also rejects a position whose line and
+	// column both overflowed, which still carries a useful offset.
+	if val == (syntax.Pos{}) || val.IsRecovered() {
 		return
 	}
 	enc := reflect.New(exportedPosType.Elem())
